@@ -797,19 +797,36 @@ def PackedDataToBuffer(packed_data: bytes, buffer: Optional[bytes] = None, offse
         return len(packed_data)
 
 
+def _wrap_angle(angle: Union[float, np.ndarray], full_turn: float):
+    # np.fmod() keeps the sign of its first argument, so shift negative remainders up by one turn. The sum can round
+    # up to exactly full_turn (tiny negative remainders), so reduce it once more: the result is always in
+    # [0, full_turn).
+    return np.fmod(np.fmod(angle, full_turn) + full_turn, full_turn)
+
+
 def yaw_to_heading(yaw: Union[float, np.ndarray], deg: bool = True):
+    """!
+    @brief Convert yaw (counter-clockwise from east) to compass heading (clockwise from north): `heading = 90 - yaw`.
+
+    @return The heading angle, in the range [0, 360) degrees (or [0, 2*pi) radians).
+    """
     if deg:
         heading_deg = 90.0 - yaw
-        return np.fmod(heading_deg + 180.0, 360.0)
+        return _wrap_angle(heading_deg, 360.0)
     else:
         heading_rad = math.pi / 2.0 - yaw
-        return np.fmod(heading_rad + math.pi, 2.0 * math.pi)
+        return _wrap_angle(heading_rad, 2.0 * math.pi)
 
 
 def heading_to_yaw(heading: Union[float, np.ndarray], deg: bool = True):
+    """!
+    @brief Convert compass heading (clockwise from north) to yaw (counter-clockwise from east): `yaw = 90 - heading`.
+
+    @return The yaw angle, in the range [-180, 180) degrees (or [-pi, pi) radians).
+    """
     if deg:
         yaw_deg = 90.0 - heading
-        return np.fmod(yaw_deg + 180.0, 360.0) - 180.0
+        return _wrap_angle(yaw_deg + 180.0, 360.0) - 180.0
     else:
         yaw_rad = math.pi / 2.0 - heading
-        return np.fmod(yaw_rad + math.pi, 2.0 * math.pi) - math.pi
+        return _wrap_angle(yaw_rad + math.pi, 2.0 * math.pi) - math.pi
